@@ -98,7 +98,9 @@ Proof.
     - apply N.ltb_ge in L. replace (N.to_nat off - N.to_nat (rle_len c))%nat with 0%nat by lia.
       simpl. now rewrite app_nil_r. }
   rewrite !expand_app, expand_take, expand_drop, PAD, length_expand.
-  f_equal. f_equal. f_equal. lia.
+  rewrite (length_expand b).
+  replace (N.to_nat (off + rle_len b)) with (N.to_nat off + N.to_nat (rle_len b))%nat by lia.
+  reflexivity.
 Qed.
 
 (* ---------- lengths, in N ---------- *)
